@@ -17,6 +17,7 @@ func init() {
 			"(sign.verify.sibling) sign() builds its input with the same signingInput(headers, payload) function and checks the same header rule; (tables) curve ↔ key size ↔ hash agree between internal/jws.parseEllipticCurve and ecsigner.getHasher and equal P-256:32/SHA-256, P-384:48/SHA-384, P-521:66/SHA-512, secp256k1:32/SHA-256; the signer pads r and s to the same ⌈bits/8⌉; " +
 			"(size) the EC verifier requires len(signature) = 2·keySize of the curve named by the key before slicing at keySize; the Ed25519 key must have length 32; (jwk.secp) the secp256k1 decoder succeeds only with X, Y present, of exactly curveSize bytes, and on the curve; (hdr) parsing and signing both require the alg header; an empty signature or payload and a non-boolean b64 header are errors; " +
 			"(nopanic) every panic-capable instruction reachable from VerifyJWS, ParseJWS, VerifySignature and JWK.UnmarshalJSON is discharged (E10). " +
+			"(jwk.leftpad) the fixed-size secp256k1 coordinate buffer is zero bytes of length size−len(data) followed by data; (jwk.okp.length) the JOSE library copies an Ed25519 x into a 32-byte buffer without a length test (premise re-derived from its source on every run), so the JWK reader reaches it only with kty ≠ OKP or len(x) = 32; " +
 			"Not decided: rejection under any other key / any alteration (cryptography); go-jose's decoding of NIST-curve and OKP keys.",
 		Run: runC09,
 	})
